@@ -83,6 +83,8 @@ package backend
 //@   ensures {C07} [a-directory-is-skipped-only-if-nothing-below-it-is-listed-separately] ownDecision && ret0 == fs.SkipDir ==> \
 //@        inSkipList || (d.IsDir() && ( \
 //@            (prefix != "" && !strings.HasPrefix(path + "/", prefix) && !strings.HasPrefix(prefix, path + "/")) || rolledUp))
+// completeness: the walk is ended early only by a full page, which is then declared truncated
+//@   ensures {C07} [the-walk-stops-early-only-on-a-full-page] ownDecision && ret0 == fs.SkipAll ==> truncated && old(pastMax)
 //@   ensures {C07} [truncation-is-declared-only-on-a-full-page-and-stops-the-walk] truncated != old(truncated) ==> truncated && old(pastMax) && ret0 == fs.SkipAll
 //@   let listed = len(objects) == old(len(objects)) + 1
 //@   ensures {C07} [a-listed-key-has-the-prefix] listed ==> prefix == "" || strings.HasPrefix(key, prefix)
